@@ -131,7 +131,7 @@ func VerifC04_RestartRequest() {
 	// an otherwise valid restart request (field mismatches are C05's subject), optionally tampered with
 	req := verifScalarRequest("req")
 	zz.Assume(req.MessageType == uint64(types.RestartMessage))
-	req.TransferId = uint64(chid.ID)
+	zz.SetInt(&req.TransferId, uint64(chid.ID))
 	base := st.BaseCid
 	req.BaseCidPtr = &base
 	req.SelectorPtr = st.Selector.Node
